@@ -409,6 +409,12 @@ pub fn oracle_line(line: &str, ann: &str) -> V {
             let got = run_line(line);
             if got == want { Ok(()) } else { Err(format!("got `{}` expected `{}`", got, want)) }
         }
+        ["acc", "symf", _name, shndx, info, other, _value, _size] => {
+            let (i, o, x) = (nat(info), nat(other), nat(shndx));
+            let want = format!("{},{},{},{}", show_bool(x == 0), i % 16, i / 16, o % 4);
+            let got = run_line(line);
+            if got == want { Ok(()) } else { Err(format!("C02: Symbol accessors (is_undefined,type,bind,visibility) gave `{}`, the ABI macros give `{}`", got, want)) }
+        }
         ["ident", sp, hexd] => oracle_ident(line, sp, &unhex(hexd)),
         ["eidata", sp, v] => oracle_eidata(line, sp, nat(v) as u8),
         ["hashfn", kind, hexd] => oracle_hashfn(kind, &unhex(hexd)),
